@@ -26,6 +26,10 @@ from ..rules.effects import PathAnalysis, _split_root
 
 ID = 'C19'
 
+# the generic data-path rules (sa/rules/closure.py) say nothing about this
+# property (scheduling / failure / scratch / path disclosure)
+GENERIC_SCAN = False
+
 EXPLANATION = (
     "Static analysis. (1) Path kinds are read from the repository's own "
     "argschema declarations (InputFile/OutputFile/...; overrides in "
